@@ -138,6 +138,10 @@ func culprit(s *dec.SpecNode) string {
 	return s.K + ">" + culprit(s.Sub[0])
 }
 
+// TypeDiff and ValueDiff are the root-cause namers, shared with C18.
+func TypeDiff(vt, it cty.Type) string      { return typeDiff(vt, it, "") }
+func ValueDiff(got, want cty.Value) string { return valueDiff(got, want) }
+
 // typeDiff describes the first position where vt fails to conform to it:
 // the enclosing type kind (only for non-dynamic mismatches), the wanted kind
 // and whether the offending type is the dynamic pseudo-type.
